@@ -77,9 +77,13 @@ def _op_matches(pattern, op):
 
 def finding_matches(entry, vclass, knobs, ops):
     """Does the *minimised* trace match the signature of a listed finding?"""
-    if entry["class"] != vclass:
+    if entry["class"] not in (vclass, "*"):
         return False
     m = entry.get("match", {})
+    if entry["class"] == "*" or m.get("necessary"):
+        # class-agnostic findings are only decided by the causal test in
+        # _handle_violation (deleting the trigger makes the violation vanish)
+        return False
     for k, v in m.get("knobs", {}).items():
         if isinstance(v, list):
             if knobs.get(k) not in v:
@@ -582,7 +586,7 @@ def main(argv=None):
             harness_errors.append(f"known finding {k['id']}: {r.error}")
             continue
         if k["status"] == "open":
-            if r.vclass == k["class"]:
+            if r.vclass == k.get("replay_class", k["class"]):
                 print(f"KNOWN-FINDING: property={prop} {k['id']} {k['what']}")
                 known_hit.add(k["id"])
             elif r.vclass is not None:
@@ -714,6 +718,33 @@ def _handle_violation(world_cls, seed, knobs, ops, vclass, known, known_hit,
     prop = world_cls.PROP
     if budget is None:
         budget = getattr(world_cls, "SHRINK_BUDGET", 150)
+    # cheap decisions first: (a) findings whose violation class alone
+    # identifies them, (b) findings with a listed trigger: if deleting the
+    # trigger ops from the trace makes this violation disappear, the trigger
+    # is necessary for it and the run is explained by the finding
+    for k in known:
+        if k["status"] != "open" or k["class"] not in (vclass, "*"):
+            continue
+        m = k.get("match", {})
+        if m.get("class_only"):
+            if k["id"] not in known_hit:
+                print(f"KNOWN-FINDING: property={prop} {k['id']} {k['what']}")
+                known_hit.add(k["id"])
+            return "known"
+        pats = m.get("ops", [])
+        if pats and all(any(_op_matches(p, o) for o in ops) for p in pats) and all(
+                knobs.get(kk) == vv or (isinstance(vv, list) and knobs.get(kk) in vv)
+                for kk, vv in m.get("knobs", {}).items()):
+            without = [o for o in ops if not any(_op_matches(p, o) for p in pats)]
+            try:
+                packed0 = in_child(_shrink_packed, world_cls, knobs, without, vclass, 0)
+            except ChildDied:
+                packed0 = "died"
+            if packed0 is None:
+                if k["id"] not in known_hit:
+                    print(f"KNOWN-FINDING: property={prop} {k['id']} {k['what']}")
+                    known_hit.add(k["id"])
+                return "known"
     try:
         packed = in_child(_shrink_packed, world_cls, knobs, ops, vclass, budget)
     except ChildDied as e:
